@@ -1049,7 +1049,8 @@ def shrink(v, observe):
 
 
 THEOREMS[:] = ['C12_table_sweep', 'C12_table', 'C12_known_operators', 'C12_extract_except_known', 'C12_extract_refuted',
-               'C12_reject', 'C12_extract_bytes_except_known', 'C12_reject_bytes']
+               'C12_reject', 'C12_extract_bytes_except_known', 'C12_reject_bytes', 'C12_extract_bytes_total',
+               'C12_extract_bytes_total_release', 'C12_extract_total']
 RULE = ('exhaustive: every (level, operator) pair (5 levels x 73 operators + 2 unknown operators, at compatibility depth 0 and 1), '
         'reached by a shortest legal prefix, alone and followed by 5 probes that identify the level reached; generative: random '
         'walks of Figure 9 (length <= 60, operands as in Annex A or of any kind where the property does not constrain them, '
